@@ -155,7 +155,7 @@ def check_env(ctx, out, rule="C19.env"):
         # the detector builds the production client from the environment
         info = ctx.validator(NAME)
         det = ctx.facts.bodies.get(info["detect"]) if info and info.get("detect") else None
-        if det is not None and any((t.get("res") or "") == ne.id for bi, t in det.calls()):
+        if det is not None and any((t.get("res") or "") == ne.id for rb in shared.detector_region(ctx, NAME) for bi, t in rb.calls()):
             m += 1
         else:
             out.viol(RULE, RULE + "|detector", ctx.where(det) if det else "-", "the check-ai detector does not build its client from the environment")
